@@ -79,6 +79,13 @@ void save_binary (program_t * prog, mem_block_t * includes, mem_block_t * patche
       includes->current_size > (int) USHRT_MAX)
     /* assume all other sizes ok */
     return;
+  /* string lengths are stored in 16 bits: a program with a longer string constant is not saved (raising an error
+   * here would leave compile_file() by longjmp, with its re-entrancy guard set for good) */
+  for (i = 0; i < (int) prog->num_strings; i++)
+    {
+      if (SHARED_STRLEN (prog->strings[i]) >= USHRT_MAX)
+        return;
+    }
 
   strcpy (file_name, CONFIG_STR (__SAVE_BINARIES_DIR__));
   if (file_name[0] == '/')
@@ -187,13 +194,7 @@ void save_binary (program_t * prog, mem_block_t * includes, mem_block_t * patche
    */
   for (i = 0; i < (int) p->num_strings; i++)
     {
-      size_t length = SHARED_STRLEN (p->strings[i]);
-      if (length >= USHRT_MAX)
-        {
-          fclose (f);
-          /* TODO: remove the incomplete binary file */
-          error ("String too long for save_binary.\n");
-        }
+      size_t length = SHARED_STRLEN (p->strings[i]); /* below USHRT_MAX, checked before the file was opened */
       bin_count = (uint16_t)length;
       fwrite ((char *) &bin_count, sizeof (bin_count), 1, f);
       fwrite (p->strings[i], sizeof (char), bin_count, f);
